@@ -49,7 +49,8 @@ class MatrixProduct:
 
         mp.qn = []
         for i in range(nsites+1):
-            subqn = npload[f"subqn_{i}"].astype(int).tolist()
+            # keep the labels as arrays: `apply` and `conj_trans` do arithmetic on them
+            subqn = npload[f"subqn_{i}"].astype(int)
             mp.qn.append(subqn)
 
         mp.qnidx = int(npload["qnidx"])
